@@ -801,6 +801,7 @@ var solvers = []solverSpec{
 }
 
 var (
+	crossCheck   = false // thorough tier: confirm every unsat with a second solver
 	solverSeed   = 0
 	solverStatMu sync.Mutex
 	solverStats  = map[string]*struct {
@@ -870,9 +871,31 @@ func solveText(text string, timeoutMs int) SolveResult {
 	if first > timeoutMs {
 		first = timeoutMs
 	}
+	// thorough tier: an `unsat` (obligation proved) is put to a second, independently developed solver; a `sat` there is a
+	// disagreement between the solvers and the obligation does not count as discharged
+	confirm := func(r SolveResult) SolveResult {
+		if !crossCheck || r.Status != "unsat" {
+			return r
+		}
+		other := solvers[1] // cvc5
+		if r.Solver == "cvc5" {
+			other = solvers[0]
+		}
+		c := runSolver(context.Background(), other, f.Name(), 8000)
+		record(c)
+		switch c.Status {
+		case "unsat":
+			r.Solver = r.Solver + "+" + c.Solver + "(confirmed)"
+		case "sat":
+			r.Status = "disagree"
+			r.Output = "solver disagreement: " + r.Solver + " answered unsat, " + c.Solver + " answered sat\n" + c.Output
+		}
+		return r
+	}
 	r := runSolver(context.Background(), solvers[0], f.Name(), first)
 	record(r)
 	if r.Status == "sat" || r.Status == "unsat" {
+		r = confirm(r)
 		r.Tried = tried
 		return r
 	}
@@ -889,6 +912,8 @@ func solveText(text string, timeoutMs int) SolveResult {
 		record(x)
 		total += x.Secs
 		if x.Status == "sat" || x.Status == "unsat" {
+			cancel()
+			x = confirm(x)
 			x.Tried = tried
 			return x
 		}
